@@ -138,6 +138,13 @@ def build_chain(spec, chrom, kinds, tip_start=False, tip_end=False, naming=0, ex
         A = prev
         if kd in ("snp", "del", "inv", "two", "tri", "nest"):
             p = ref()
+        if kd == "ref":
+            # two consecutive reference segments with nothing between them: a bridge of two articulation points (not in KINDS: used
+            # by dedicated harnesses only)
+            B = ref()
+            spec.link(A, "+", B, "+")
+            prev = B
+            continue
         B_pending = []
         if kd == "snp":
             q = alt()
